@@ -126,14 +126,16 @@ def build(spec):  # noqa: C901, PLR0912, PLR0915
     hints = {fname: TYPES[tkey]["hint"] for fname, tkey, _ in fields}
     if kind == "dataclass":
         dc_fields = []
-        for fname, tkey, req in fields:
+        kw_only = set(spec.get("kw_only", ()))      # indices of keyword-only fields (they may precede positional ones)
+        for i, (fname, tkey, req) in enumerate(fields):
             d = field_default(tkey, req)
+            kw = {"kw_only": True} if i in kw_only else {}
             if d[0] == "none":
-                dc_fields.append((fname, hints[fname]))
+                dc_fields.append((fname, hints[fname], dataclasses.field(**kw)) if kw else (fname, hints[fname]))
             elif d[0] == "value":
-                dc_fields.append((fname, hints[fname], dataclasses.field(default=d[1])))
+                dc_fields.append((fname, hints[fname], dataclasses.field(default=d[1], **kw)))
             else:
-                dc_fields.append((fname, hints[fname], dataclasses.field(default_factory=d[1])))
+                dc_fields.append((fname, hints[fname], dataclasses.field(default_factory=d[1], **kw)))
         return dataclasses.make_dataclass(name, dc_fields)
     if kind == "namedtuple":
         cls = NamedTuple(name, [(fname, hints[fname]) for fname, _, _ in fields])
@@ -154,14 +156,16 @@ def build(spec):  # noqa: C901, PLR0912, PLR0915
     if kind == "attrs":
         import attr
         attrs_fields = {}
-        for fname, tkey, req in fields:
+        kw_only = set(spec.get("kw_only", ()))
+        for i, (fname, tkey, req) in enumerate(fields):
             d = field_default(tkey, req)
+            kw = {"kw_only": True} if i in kw_only else {}
             if d[0] == "none":
-                attrs_fields[fname] = attr.ib(type=hints[fname])
+                attrs_fields[fname] = attr.ib(type=hints[fname], **kw)
             elif d[0] == "value":
-                attrs_fields[fname] = attr.ib(type=hints[fname], default=d[1])
+                attrs_fields[fname] = attr.ib(type=hints[fname], default=d[1], **kw)
             else:
-                attrs_fields[fname] = attr.ib(type=hints[fname], factory=d[1])
+                attrs_fields[fname] = attr.ib(type=hints[fname], factory=d[1], **kw)
         return attr.make_class(name, attrs_fields, eq=True)
     if kind == "pydantic":
         import pydantic
